@@ -572,6 +572,7 @@ def run_schema(schema: dict, rng, exercise: int = 40) -> SchemaRun:
             ok, back = sr._call(f"{cls.__name__}.{from_n}", getattr(cls, from_n), wire)
             if ok and to_n == "to_dict":
                 check_identity(sr, d, inst, back)
+                check_factory_identity(sr, inst, back)
             if ok:
                 check_roundtrip(sr, d, inst, back, f"{cls.__name__}.{from_n}", wire)
             if to_n == "to_dict" and isinstance(wire, dict):
@@ -615,6 +616,7 @@ def run_schema(schema: dict, rng, exercise: int = 40) -> SchemaRun:
             ok2, back = sr._call(f"{kind}.decode", dec.decode, wire)
             if ok2:
                 check_identity(sr, d, val, back)
+                check_factory_identity(sr, val, back)
                 check_roundtrip(sr, d, val, back, f"{kind}.decode", wire)
         for j in JUNK:
             if kind in ("basic",):
@@ -748,6 +750,29 @@ def rendered_name(c) -> str:
     return f"{c.__module__}.{c.__qualname__}"
 
 
+def real_type_ident(t):
+    """what CodeBuilder.get_type_name_identifier really returns for the type t and which object it registers under which
+    alias (the method only uses self.ensure_object_imported): -> (rendering, pasted text, alias or None or '<wrong-object>')"""
+    from mashumaro.core.meta.code.builder import CodeBuilder
+    from mashumaro.core.meta.helpers import type_name
+
+    class _Rec:
+        def __init__(self):
+            self.reg = []
+
+        def ensure_object_imported(self, obj, name=None):
+            self.reg.append((obj, name))
+    rec = _Rec()
+    text = CodeBuilder.get_type_name_identifier(rec, t)
+    if not rec.reg:
+        alias = None
+    elif len(rec.reg) == 1 and rec.reg[0][0] is t and isinstance(rec.reg[0][1], str):
+        alias = rec.reg[0][1]
+    else:
+        alias = "<wrong-object>"
+    return type_name(t), text, alias
+
+
 def clean(s: str) -> str:
     import re
     return re.sub(r"\W|^(?=\d)", "_", s) if s else "_"
@@ -793,6 +818,32 @@ def check_identity(sr: SchemaRun, d: dict, inst, back):
                 sr.finding("wrong-class-bound", f"field {holder.__name__}.{fn}: annotation {c!r} (id {id(c):#x}) but decoded object is of {type(y)!r} (id {id(type(y)):#x})",
                            entry=f"{holder.__name__}.from_dict", field=fn, ann=c, got=type(y),
                            winner=_winner(d, holder, fn, type(y)))
+
+
+def check_factory_identity(sr: SchemaRun, inst, back):
+    """DefaultDict[K, V] with V a class: the factory of the decoded defaultdict is the very class V of the annotation
+    (unpack.py pastes a type reference as the factory; since d8ae0ee through get_type_name_identifier)"""
+    import collections
+    import dataclasses
+    import typing
+    if not dataclasses.is_dataclass(back) or type(back) is not type(inst):
+        return
+    try:
+        hints = typing.get_type_hints(type(inst), include_extras=False)
+    except Exception:
+        return
+    for fn, t in hints.items():
+        if typing.get_origin(t) is not collections.defaultdict:
+            continue
+        args = typing.get_args(t)
+        if len(args) != 2 or not isinstance(args[1], type):
+            continue
+        y = getattr(back, fn, None)
+        if isinstance(y, collections.defaultdict) and y.default_factory is not args[1]:
+            got = y.default_factory
+            sr.finding("wrong-class-bound", f"field {type(inst).__name__}.{fn}: annotation DefaultDict[.., {args[1]!r}] (id {id(args[1]):#x}) but the factory of the "
+                       f"decoded defaultdict is {got!r} (id {id(got):#x})", entry=f"{type(inst).__name__}.from_dict", field=fn, ann=args[1], got=got,
+                       winner="unknown")
 
 
 def check_roundtrip(sr: SchemaRun, d: dict, inst, back, entry: str, wire):
@@ -926,13 +977,24 @@ def classify(f: dict, d: dict, module: str, src: str = "") -> dict:
         return {"kind": "unresolved-name", "cause": cause, "name": name if cause != "class-module-not-importable" else "<module root>"}
     if kind == "own-SyntaxError":
         cause = "other"
-        if "collections.defaultdict(" in name and "<locals>" in name.split("collections.defaultdict(", 1)[1].split(",", 1)[0]:
-            cause = "defaultdict-factory-local"
-        elif name.lstrip().startswith("CodeBuilder(") and "<locals>" in name:
+        if name.lstrip().startswith("CodeBuilder(") and "<locals>" in name:
             cause = "local-class-in-lazy-stub"
+        elif _local_in_type_arg_list(name):
+            cause = "generic-serializable-local-type-arg"
 
         return {"kind": "generated-syntax-error", "cause": cause}
     return {"kind": kind, "cause": "other"}
+
+
+def _local_in_type_arg_list(line: str) -> bool:
+    """the offending line calls X._serialize([..]) / X._deserialize(.., [..]) of a GenericSerializableType and the marker of a
+    local class sits inside that list of type arguments"""
+    import re
+    for m in re.finditer(r"\._serialize\(\[(.*?)\]\)|\._deserialize\(.*?, \[(.*)\]\)", line):
+        inner = m.group(1) if m.group(1) is not None else m.group(2)
+        if inner and "<locals>" in inner:
+            return True
+    return False
 
 
 def _only_in_union_type_test(prog: str, name: str) -> bool:
